@@ -261,6 +261,10 @@ class ExtCommunity(Attribute):
             else:
                 LOG.warn('unknow bgp extended community for construct, type=%s, value=%s', item[0], item[1])
 
+        if len(ext_community_hex) > 255:
+            # more than 31 extended communities: the attribute length needs two octets
+            return struct.pack('!B', cls.FLAG + AttributeFlag.EXTENDED_LENGTH) + struct.pack(
+                '!B', cls.ID) + struct.pack('!H', len(ext_community_hex)) + ext_community_hex
         if ext_community_hex:
             return struct.pack('!B', cls.FLAG) + struct.pack(
                 '!B', cls.ID) + struct.pack('!B', len(ext_community_hex)) + ext_community_hex
